@@ -49,6 +49,7 @@ type PathResult struct {
 	Events     []Event
 	Oblig      []Obligation
 	Reached    []string
+	Choices    map[string][2]int
 	Violations []Violation
 	Model      map[string]interface{}
 	HasModel   bool
@@ -256,6 +257,7 @@ func (ex *Explorer) runPath(sol *Solver, prefix []int) (res *PathResult) {
 		res.Events = ps.events
 		res.Oblig = ps.oblig
 		res.Reached = ps.reached
+		res.Choices = ps.choices
 		res.Violations = ps.violations
 		res.Forks = ps.forks
 		res.Steps = in.steps
